@@ -1072,7 +1072,7 @@ Section LearnMoves.
 
   Lemma keep_wfresh k : keep (wfresh k).
   Proof.
-    intros x (A1 & A2 & A3). unfold wfresh. cbn [fst snd]. split.
+    intros x (A1 & A2 & A3). unfold wfresh, adv, hit. cbn [fst snd]. split.
     - repeat split; auto.
       + pose proof (write_fresh_mono (getb k (a_blocks (snd x))) (fst x)). lia.
       + rewrite write_fresh_next. auto.
@@ -1095,10 +1095,9 @@ Section LearnMoves.
     pose proof (eff_realloc (o, cOst) srcs false false false x) as E.
     pose proof (alloc_fresh_mono srcs (fst x)) as F. pose proof (alloc_next srcs (fst x)) as Nx.
     pose proof (alloc_frame srcs (fst x) l) as Fr.
-    unfold realloc in *. destruct (alloc (fst x) srcs) as [s' ls]. cbn [fst snd] in *. split.
-    - repeat split; try lia. intros k Hk. rewrite (eff_other _ _ _ _ _ _ k E).
-      + apply A3; auto.
-      + intro; subst. destruct Hk; discriminate.
+    unfold realloc, adv, hit in *. destruct (alloc (fst x) srcs) as [s' ls]. cbn [fst snd] in *. split.
+    - repeat split; try lia. intros k Hk. transitivity (blk (snd x) k); [|apply A3; auto].
+      apply (eff_other _ _ _ _ _ _ k E). intro; subst. destruct Hk; discriminate.
     - unfold hit. cbn [fst]. intros H. rewrite Fr; auto. lia.
   Qed.
 
@@ -1138,12 +1137,12 @@ Proof.
   assert (A0 : adv s a (s, a)).
   { unfold adv. cbn [fst snd]. repeat split; try lia. }
   unfold learn_agent. cbn [snd].
-  apply (seqL_make s a l Hb); auto.
+  apply (seqL_make s a l); auto.
   - apply Forall_app. split; [|apply Forall_app; split].
     + apply Forall_forall. intros f Hf. apply in_flat_map in Hf as (m & _ & Hf).
-      destruct Hf as [<-|[<-|[<-|[]]]]; apply keep_wfresh.
-    + constructor; [apply keep_wfresh|constructor].
-    + apply Forall_forall. intros f Hf. apply in_map_iff in Hf as (ok & <- & _). apply keep_learn_opt.
+      destruct Hf as [<-|[<-|[<-|[]]]]; apply keep_wfresh; auto.
+    + constructor; [apply keep_wfresh; auto|constructor].
+    + apply Forall_forall. intros f Hf. apply in_map_iff in Hf as (ok & <- & _). apply keep_learn_opt; auto.
   - apply Exists_app. left. apply Exists_exists.
     unfold exposed in Hin. apply in_app_or in Hin as [Hin|Hin].
     + exists (wfresh (n, cEnc)). split.
@@ -1192,3 +1191,86 @@ Section ArchFollowProofs.
       destruct applied as [m'|]; [|congruence]. cbn [follow_one]. apply (Rp m pol p' m' d E).
   Qed.
 End ArchFollowProofs.
+
+(* ---------------------------------------------------------------------------------------------- *)
+(* 16. concrete instances: non-vacuity, and the pinned learning-rate mutation *)
+Definition net_blocks (n : name) (base : N) (enc : bool) : blocks :=
+  [((n, cEnc), if enc then [base] else []); ((n, cHead), [base + 1]); ((n, cHenc), if enc then [] else [base]);
+   ((n, cConst), []); ((n, cCfg), [base + 2]); ((n, cBuf), [])].
+
+(* a TD3-like registry: twin critics whose optimizers use the same learning rate *)
+Definition ex_reg : registry :=
+  mkReg [mkGroup 1 [2] true; mkGroup 3 [4] false; mkGroup 5 [6] false]
+        [mkOptCfg 7 [1] 10; mkOptCfg 8 [3] 11; mkOptCfg 9 [5] 11] [] [10; 11; 12] true.
+Definition ex_agent (idx : N) (base : N) : agent :=
+  mkAgent idx 0 [(1, 1); (2, 1); (3, 2); (4, 2); (5, 2); (6, 2)]
+          [mkOpt 7 (1 # 10) [base; base + 1]; mkOpt 8 (1 # 100) [base + 6; base + 7]; mkOpt 9 (1 # 100) [base + 12; base + 13]]
+          [(10, 1 # 10); (11, 1 # 100); (12, 4 # 1)] ex_reg
+          (net_blocks 1 base true ++ net_blocks 2 (base + 3) true ++ net_blocks 3 (base + 6) true ++
+           net_blocks 4 (base + 9) true ++ net_blocks 5 (base + 12) true ++ net_blocks 6 (base + 15) true ++
+           [((7, cOst), []); ((8, cOst), []); ((9, cOst), []); (kReg, [base + 18; base + 19; base + 20]);
+            (kBook, [base + 21]); (kExt, [])]).
+Definition ex_world : world := mkWorld (mkStore 44 100 hempty) [ex_agent 0 0; ex_agent 1 22].
+
+(* a DDPG-like registry with shared encoders: the critic and both targets hold detached copies of the actor's encoder *)
+Definition ex_reg_share : registry :=
+  mkReg [mkGroup 1 [2] true; mkGroup 3 [4] false] [mkOptCfg 7 [1] 10; mkOptCfg 8 [3] 11] [HShare 1 [3; 4]] [10; 11] true.
+Definition ex_agent_share : agent :=
+  mkAgent 0 0 [(1, 1); (2, 1); (3, 2); (4, 2)] [mkOpt 7 (1 # 10) [0; 1]; mkOpt 8 (1 # 100) [7]]
+          [(10, 1 # 10); (11, 1 # 100)] ex_reg_share
+          (net_blocks 1 0 true ++ net_blocks 2 3 true ++ net_blocks 3 6 false ++ net_blocks 4 9 false ++
+           [((7, cOst), []); ((8, cOst), []); (kReg, [12; 13]); (kBook, [14]); (kExt, [])]).
+Definition ex_world_share : world := mkWorld (mkStore 15 100 hempty) [ex_agent_share].
+
+(* a DQN-like registry: the hook re-synchronises the target *)
+Definition ex_reg_sync : registry :=
+  mkReg [mkGroup 1 [2] true] [mkOptCfg 7 [1] 10] [HSync 1 2] [10] false.
+Definition ex_agent_sync : agent :=
+  mkAgent 0 0 [(1, 1); (2, 1)] [mkOpt 7 (1 # 10) [0; 1]] [(10, 1 # 10)] ex_reg_sync
+          (net_blocks 1 0 true ++ net_blocks 2 3 true ++ [((7, cOst), []); (kReg, [6]); (kBook, [7]); (kExt, [])]).
+Definition ex_world_sync : world := mkWorld (mkStore 8 100 hempty) [ex_agent_sync].
+
+Definition ex_shapes : list netshape :=
+  [mkShape 1 5 2 1 0 0 1 0; mkShape 3 6 2 1 0 0 1 0; mkShape 5 6 2 1 0 0 1 0].
+Definition ex_history : list op :=
+  [Mutate 0 MArch ex_shapes 5; Mutate 1 (MHp 11 (1 # 50)) [] 6; Act 0; Learn 0 [(7, 6%nat); (8, 6%nat); (9, 6%nat)];
+   Learn 1 [(7, 4%nat); (8, 4%nat); (9, 4%nat)]; Score 0; Score 1; Select 1 [0%nat] true; Discard 2;
+   Mutate 0 MParam [] 7; Mutate 1 MAct [] 1; Learn 1 [(7, 4%nat); (8, 4%nat); (9, 4%nat)]; Clone 1 (Some 9);
+   Mutate 2 MNone [] 1].
+
+Lemma ex_world_good : WfRegs ex_world /\ AllCoherent ex_world.
+Proof.
+  split.
+  - repeat constructor.
+  - apply all_coherent_b_sound. vm_compute. reflexivity.
+Qed.
+
+Lemma ex_world_share_good : WfRegs ex_world_share /\ AllCoherent ex_world_share.
+Proof. split; [repeat constructor|apply all_coherent_b_sound; vm_compute; reflexivity]. Qed.
+
+Lemma ex_world_sync_good : WfRegs ex_world_sync /\ AllCoherent ex_world_sync.
+Proof. split; [repeat constructor|apply all_coherent_b_sound; vm_compute; reflexivity]. Qed.
+
+(* the pinned rl_hyperparam_mutation (only the first optimizer with the mutated lr is re-created) leaves the
+   second critic's optimizer at the old learning rate *)
+Lemma hp_first_only_refuted_lemma :
+  exists s a h v label,
+    wf_registry (a_reg a) = true /\ Coherent a /\
+    ~ Coherent (snd (mutate_agent_first_only (MHp h v) [] label (s, a))) /\
+    Coherent (snd (mutate_agent (MHp h v) [] label (s, a))).
+Proof.
+  exists (mkStore 22 100 hempty), (ex_agent 0 0), 11, (1 # 50), 6.
+  assert (C : Coherent (ex_agent 0 0)) by (apply coherent_b_sound; vm_compute; reflexivity).
+  split; [reflexivity|]. split; [exact C|]. split.
+  - set (a' := snd (mutate_agent_first_only (MHp 11 (1 # 50)) [] 6 (mkStore 22 100 hempty, ex_agent 0 0))).
+    intros (CO & _ & _).
+    assert (EO : a_opts a' = [mkOpt 7 (1 # 10) [0; 1]; mkOpt 8 (1 # 50) [6; 7]; mkOpt 9 (1 # 100) [12; 13]])
+      by (vm_compute; reflexivity).
+    rewrite EO in CO. inversion CO as [|? ? _ CO1]; subst. inversion CO1 as [|? ? _ CO2]; subst.
+    inversion CO2 as [|? ? (c & F & _ & L) _]; subst.
+    assert (ER : find_optcfg (a_reg a') 9 = Some (mkOptCfg 9 [5] 11)) by (vm_compute; reflexivity).
+    cbn [o_name] in F. rewrite ER in F. injection F as <-.
+    assert (EL : lookupN (1 # 100) 11 (a_hps a') = 1 # 50) by (vm_compute; reflexivity).
+    cbn [o_lr oc_lr] in L. rewrite EL in L. discriminate L.
+  - apply mutate_agent_coherent; [reflexivity|exact C].
+Qed.
